@@ -383,6 +383,42 @@ Proof.
   destruct t; try reflexivity. discriminate.
 Qed.
 
+(* through a union, at the outermost level: True exactly at the None entries, whatever the alternatives are *)
+Lemma mapM_is_none_at_0 (vs : list value) :
+  mapM (is_none_at 0) vs = Ok (map (fun v => VBool (is_none v)) vs).
+Proof.
+  induction vs as [|v vs IH]; [reflexivity|].
+  cbn [mapM is_none_at bind map]. change (mapM (fun v0 => Ok (VBool (is_none v0))) vs) with (mapM (is_none_at 0) vs).
+  rewrite IH. reflexivity.
+Qed.
+Theorem is_none_union_exact_lemma ts vs :
+  spec_is_none 0 (TUnion ts) vs = Ok (VList (map (fun v => VBool (is_none v)) vs)).
+Proof.
+  unfold spec_is_none, spec_is_none_union. cbn [Z.ltb Z.compare Z.to_nat].
+  rewrite mapM_is_none_at_0. reflexivity.
+Qed.
+(* one level down: every list is mapped element by element, a missing list stays missing *)
+Theorem is_none_union_axis1_lemma ts (ls : list (option (list value))) :
+  spec_is_none 1 (TUnion ts) (map (fun o => match o with Some l => VList l | None => VNone end) ls) =
+  Ok (VList (map (fun o => match o with
+                           | Some l => VList (map (fun v => VBool (is_none v)) l)
+                           | None => VNone
+                           end) ls)).
+Proof.
+  unfold spec_is_none, spec_is_none_union. cbn [Z.ltb Z.compare]. change (Z.to_nat 1) with 1%nat.
+  assert (H : mapM (is_none_at 1) (map (fun o => match o with Some l => VList l | None => VNone end) ls) =
+              Ok (map (fun o => match o with
+                                | Some l => VList (map (fun v => VBool (is_none v)) l)
+                                | None => VNone
+                                end) ls)).
+  { induction ls as [|o ls IH]; [reflexivity|].
+    cbn [map mapM]. destruct o as [l|].
+    - change (is_none_at 1 (VList l)) with (rmap VList (mapM (is_none_at 0) l)).
+      rewrite mapM_is_none_at_0. cbn [rmap bind]. rewrite IH. reflexivity.
+    - change (is_none_at 1 VNone) with (@Ok value VNone). cbn [bind]. rewrite IH. reflexivity. }
+  rewrite H. reflexivity.
+Qed.
+
 (* ak.is_none(x, axis=1) on an array of lists: True exactly at the missing elements of every list *)
 Theorem is_none_exact_axis1_lemma sz te (ls : list (list value)) :
   spec_is_none 1 (TList sz None te) (map VList ls) =
